@@ -211,8 +211,11 @@ class VariableTransformer:
 
         numeps = 1e-6  # accepted numerical error
         tests = np.zeros(4)
-        # numerical error accepted relative to the magnitude of the bound (absolute below 1)
-        tol_of = lambda v: numeps * np.maximum(1.0, np.abs(v))
+        # numerical error accepted relative to the magnitude of the bounds (absolute below 1)
+        bounds_scale = np.maximum(
+            1.0, np.maximum(np.abs(self.orig_plb), np.abs(self.orig_pub))
+        )
+        tol_of = lambda v: numeps * np.maximum(bounds_scale, np.abs(v))
         tests[0] = np.all(np.abs(ginv(g(lbtest)) - lbtest) < tol_of(lbtest))
         tests[1] = np.all(np.abs(ginv(g(ubtest)) - ubtest) < tol_of(ubtest))
         tests[2] = np.all(np.abs(ginv(g(self.orig_plb)) - self.orig_plb) < tol_of(self.orig_plb))
